@@ -384,6 +384,26 @@ func (h *ecSim) react(action clienttesting.Action) (bool, runtime.Object, error)
 	return true, ev, nil
 }
 
+type ecYieldRecorder struct {
+	r         *sim.Run
+	h         *ecSim
+	announced int
+}
+
+var _ events.EventRecorder = (*ecYieldRecorder)(nil)
+
+func (y *ecYieldRecorder) Eventf(regarding runtime.Object, related runtime.Object, eventtype, reason, action, note string, args ...interface{}) {
+	// "the reported counters equal the evictions issued": by the time an eviction is announced with an event, a reader of
+	// the PodEvictor's counters must see it counted (reads are sequentially consistent here: one actor runs at a time)
+	y.announced++
+	if pe := y.h.pe; pe != nil {
+		if got := pe.TotalEvicted(); got < y.announced {
+			y.r.Fail("counter-read", "podevictor/below-announced", "eviction #%d of this cycle has been announced with an event but TotalEvicted() reports %d", y.announced, got)
+		}
+	}
+	y.r.Yield("event-recorder")
+}
+
 // evict plugin as pkg/descheduler/framework/plugins/kubernetes/defaultevictor wires it: a pass-through to PodEvictor.Evict
 type ecPlugin struct{ pe *PodEvictor }
 
@@ -393,7 +413,9 @@ func (p *ecPlugin) Evict(ctx context.Context, pod *corev1.Pod, o framework.Evict
 }
 
 func (h *ecSim) newCycleSubject(cs clientset.Interface) {
-	rec := &events.FakeRecorder{} // nil channel: Eventf is a no-op
+	// the event recorder is a scheduling point (the real recorder hands the event to a broadcaster and may block briefly):
+	// other evictors can run while one is between its API call and its return
+	rec := &ecYieldRecorder{r: h.r, h: h}
 	switch h.cfg.Subject {
 	case "podevictor":
 		// a PodEvictor lives for one descheduling cycle
